@@ -359,6 +359,18 @@ func (s *StateMachine) SlashValidator(validator *Validator, chainId, percent uin
 		if err = s.EventSlash(validator.Address, slashAmount); err != nil {
 			return err
 		}
+		// the record is going away: remove its deferred-action markers too, or the end-block
+		// code that consumes them (DeleteFinishedUnstaking) fails on the missing validator
+		if validator.UnstakingHeight != 0 {
+			if err = s.Delete(KeyForUnstaking(validator.UnstakingHeight, addr)); err != nil {
+				return err
+			}
+		}
+		if validator.MaxPausedHeight != 0 {
+			if err = s.Delete(KeyForPaused(validator.MaxPausedHeight, addr)); err != nil {
+				return err
+			}
+		}
 		// DeleteValidator subtracts from staked supply
 		return s.DeleteValidator(validator)
 	}
